@@ -1,14 +1,15 @@
 package checks
 
 import (
-	"strconv"
 	"fmt"
 	"math/big"
 	"net/url"
+	"strconv"
 	"strings"
 
 	"github.com/ja7ad/otp"
 	"github.com/ja7ad/otp/verifharness/ev"
+	"github.com/ja7ad/otp/verifharness/ref"
 )
 
 func init() { register("C16", "exploration", c16) }
@@ -61,7 +62,7 @@ func urlRoundTrip(c c16Case) (obs, bad string) {
 	}
 	pu, err := url.Parse(text)
 	if err != nil {
-		return obs, "generated URL text does not parse: " + err.Error()
+		return obs, "generated URL text does not parse: " + errText(err)
 	}
 	var back *otp.URLParam
 	if pn := try(func() { back, err = otp.ParseOTPAuthURL(pu) }); pn != "" {
@@ -118,7 +119,7 @@ func parseOnly(c c16Case) (obs, bad string) {
 		return "panic:" + pn, "panicked: " + pn
 	}
 	if err != nil {
-		return "rejected|" + err.Error(), ""
+		return "rejected|" + errText(err), ""
 	}
 	obs = fmt.Sprintf("accepted digits=%d period=%d issuer=%q account=%q", back.Digits, back.Period, back.Issuer, back.AccountName)
 	if c.Field == "" || c.Value == "" {
@@ -188,7 +189,7 @@ func c16(r *ev.Run) {
 				u, err = otp.GenerateHOTPURL(p)
 			}
 			if err != nil {
-				return "generror", "generation failed: " + err.Error()
+				return "generror", "generation failed: " + errText(err)
 			}
 			us = append(us, u)
 		}
@@ -308,6 +309,34 @@ func c16(r *ev.Run) {
 				r.DistinctS(f + v + obs)
 			}
 		}
+	}
+	// label length sweep: every total length len(issuer)+len(account) = 2..300 in three splits and three kinds of
+	// characters (1-, 2- and 3-byte), and secrets of every length 1..130 (fixed-size buffers, length prefixes)
+	{
+		var ln int64
+		for total := 2; total <= 300; total++ {
+			for _, split := range []int{1, total / 2, total - 1} {
+				for ci, ch := range []string{"a", "\u00e9", "\u20ac"} {
+					iss, acc := strings.Repeat(ch, split), strings.Repeat(ch, total-split)
+					c := c16Case{Kind: []string{"totp", "hotp"}[(total+ci)%2], Issuer: iss, Account: acc, Secret: "JBSWY3DPEHPK3PXP", Digits: 6 + 2*(total%2), Algo: total % 3, Period: uint64(30 + total%2*30)}
+					obs, bad := urlRoundTrip(c)
+					ln++
+					if bad != "" {
+						r.Fail("round-trip", fmt.Sprintf("label length sweep issuer %d + account %d characters of %d byte(s): %s", split, total-split, len(ch), bad), c, bad, obs)
+					}
+				}
+			}
+		}
+		for n := 1; n <= 130; n++ {
+			c := c16Case{Kind: []string{"totp", "hotp"}[n%2], Issuer: "Iss", Account: "acc", Secret: ref.B32Encode(patt(n, byte(n))), Digits: 6, Algo: n % 3, Period: 30}
+			obs, bad := urlRoundTrip(c)
+			ln++
+			if bad != "" {
+				r.Fail("round-trip", fmt.Sprintf("secret length sweep %d bytes: %s", n, bad), c, bad, obs)
+			}
+		}
+		r.Eval(ln)
+		r.Set("label_and_secret_length_sweep", ln)
 	}
 	// dense sweep: EVERY value 0..70000 and the 300 values around each power of two up to 2^64, as digits and as
 	// period (an overflow test that misses some wraps accepts only some of the values beyond the field's range)
